@@ -487,9 +487,11 @@ def main(argv=None):
             trusted["crosshair_crosscheck_of_symx"] = crosshair_crosscheck(log)
     elif tier == "quick" and pid == "C01" and not args.only:
         trusted["vloop_conformance"] = vloop_conformance(seed, 16, log)
-    for k, v in trusted.items():
-        if v.get("failed"):
-            harness_error = harness_error or (Harness(k, None), {"what": k + " failed"}, "-", json.dumps(v)[:2000])
+    trusted_failed = [k for k, v in trusted.items() if v.get("failed")]
+    for k in trusted_failed:
+        # a failed validation of the trusted base does not say the property is violated: the run is reported as
+        # inconclusive (evidence: exhaustive false, details under coverage.<name>), the exit code stays 0
+        log("INCONCLUSIVE: validation of the trusted base failed: %s: %s" % (k, json.dumps(trusted[k])[:1500]))
     wall = time.time() - t_start
     rc = EXIT_OK
     if new_violation:
@@ -585,6 +587,8 @@ def write_evidence(pid, tier, seed, mod, hs, aggs, wall, rc, known_lines, extra=
     }
     for k, v in (trusted or {}).items():
         ev["coverage"][k] = v
+        if v.get("failed"):
+            ev["coverage"]["exhaustive"] = False
     if extra is not None:
         ev["coverage"]["crosshair"] = extra["evidence"]
         ev["coverage"]["evaluations"] += extra["evaluations"]
